@@ -79,10 +79,15 @@ func parseFloat32(s []byte) float32 {
 //
 // For example, roundUpTo(0.0001, 100) -> 0.01.
 func roundUpTo(value float32, granularity float64) float32 {
+	// Scale in single precision.  Widening first would expose the
+	// representation error of a decimal literal (2.7 is stored as
+	// 2.70000005) as a fraction to be rounded up, so that 2.7 became
+	// 2.71, and 2.72 the next time the formatted source was parsed.
+	scaled := float64(value * float32(granularity))
 	if value > 0 {
-		return float32(math.Ceil(float64(value)*granularity) / granularity)
+		return float32(math.Ceil(scaled) / granularity)
 	} else if value < 0 {
-		return float32(math.Floor(float64(value)*granularity) / granularity)
+		return float32(math.Floor(scaled) / granularity)
 	}
 	return 0
 }
